@@ -74,7 +74,16 @@ def gen_case(rng):
     tod_at = rng.randrange(n) if use_tod else None
     horizon = 0.0
     current = 0            # the value the time register holds (None: pattern)
+    mode = 'raw' if raw else 'logical'
     for k in range(n):
+        if k and rng.random() < 0.2:
+            # the time in force is carried through a unit switch: the same
+            # span of time, re-expressed (seconds in logical and rgb units,
+            # milliseconds in raw units)
+            mode = rng.choice([m for m in ('logical', 'raw', 'rgb')
+                               if m != mode])
+            stmts.append('units ' + mode)
+            raw = mode == 'raw'
         if k == tod_at:
             pat = rng.choice(['0:17', '0:18', '0:1*', '*:*8', '0:2*', '*:19'])
             stmts.append('time at {} on all'.format(pat))
@@ -108,7 +117,7 @@ def gen_case(rng):
     return ' '.join(stmts), expected, tick
 
 
-def run_case(seed, script, tick, policy, depth, max_steps=200000):
+def run_case(seed, script, tick, policy, depth, max_steps=200000, runs=1):
     env.THREAD_EXCEPTIONS.clear()
     env.MACHINE_STOPS.clear()
     events = []
@@ -119,9 +128,18 @@ def run_case(seed, script, tick, policy, depth, max_steps=200000):
         job = ScriptJob.from_string(script)
         assert job.program is not None, job.compile_errors
         vsys.ClockProbe(job._machine._clock, events)
+        execute = job.execute
+
+        def probed_execute():
+            events.append(('run_start', s.vnow))
+            return execute()
+        job.execute = probed_execute
         jc = job_control.JobControl()
-        agent = jc.add_job(job)
-        s.block_until(lambda: not agent.is_running() or s.deadlock, 'job')
+        for _ in range(runs):
+            # (a further run of the same job object starts the moment the
+            # previous one has ended: its clock thread may still be around)
+            agent = jc.add_job(job)
+            s.block_until(lambda: not agent.is_running() or s.deadlock, 'job')
         # let the clock thread notice the stop and exit
         s.block_until(lambda: all(t.done for t in s.order if t is not s.main),
                       'threads', timeout=5 * tick + 10)
@@ -185,7 +203,11 @@ def check_rules(ctx, out, expected, replay, script):
     waited = False
     for e in ev:
         kind, t = e[0], e[1]
-        if kind == 'reset':
+        if kind == 'run_start':
+            # every run has its own time line: nothing is due before the
+            # clock has been started again
+            origin = due = None
+        elif kind == 'reset':
             origin = t
             due = t
             if in_wu is not None:
@@ -297,9 +319,16 @@ def run_shard(ctx):
         horizon = sum(v for k, v in expected if k == 'pf') + (
             300 if any(k == 'wu' for k, _ in expected) else 0)
         budget = int(horizon / tick * 120) + 60000
-        out = run_case(seed, script, tick, policy, depth, budget)
+        runs = 1
+        if not any(k == 'wu' for k, _ in expected) and rng.random() < 0.25:
+            runs = rng.choice([2, 2, 3])
+            expected = expected * runs
+            budget *= runs
+            ctx.count('scenarios_with_reruns')
+        out = run_case(seed, script, tick, policy, depth, budget, runs)
         replay = {'script': script, 'tick': tick, 'policy': policy,
-                  'depth': depth, 'seed': seed, 'expected': expected}
+                  'depth': depth, 'seed': seed, 'expected': expected,
+                  'runs': runs}
         ok = check_rules(ctx, out, expected, replay, script)
         ctx.case(sig(out['schedule']), nontrivial=bool(out.get('waited')))
         ctx.count('scheduler_steps', out['steps'])
@@ -343,7 +372,7 @@ def replay(doc):
     r = doc['replay']
     ctx = Ctx('C10', 'quick', 0, 0, 1)
     out = run_case(r['seed'], r['script'], r['tick'], r['policy'], r['depth'],
-                   2000000)
+                   2000000, r.get('runs', 1))
     for e in out['events'][:200]:
         print(e)
     check_rules(ctx, out, [tuple(x) for x in r['expected']], r, r['script'])
